@@ -3,9 +3,13 @@ demonstration, reverts, and writes seeded/<id>/result.json.  Usage: run_seeds.py
 import json, os, subprocess, sys, glob
 V = os.path.dirname(os.path.dirname(os.path.abspath(__file__)))
 pref = sys.argv[1] if len(sys.argv) > 1 else ""
+import re
+only = re.compile(sys.argv[2]) if len(sys.argv) > 2 else None  # optional regex on the seed id, e.g. '-[cd]$'
 assert subprocess.run(["git", "-C", "/repo", "status", "--porcelain", "--untracked-files=no"], capture_output=True, text=True).stdout.strip() == "", "/repo dirty"
 for d in sorted(glob.glob(os.path.join(V, "seeded", pref + "*"))):
     sid = os.path.basename(d)
+    if only is not None and not only.search(sid):
+        continue
     prop = sid.split("-")[0]
     patch = os.path.join(d, "patch.diff")
     if not os.path.exists(patch):
